@@ -1,5 +1,7 @@
-// rapidcheck engine: picks are drawn from rapidcheck generators inside rc::check, so rapidcheck's
-// integrated shrinking applies to the whole case (the pick sequence shrinks as one value).
+// rapidcheck engine: picks are drawn from rapidcheck generators inside rc::check (size-scaled generation,
+// seeded through RC_PARAMS). Shrinking is done by the harness runtime's pick-list shrinker on the recorded pick
+// sequence (the whole case shrinks as one value): rapidcheck's own shrinking of long imperative recipes turned out
+// to be unbounded in time (minutes for a 200-step operation sequence), so it is switched off (noshrink=1).
 // Kept in its own TU (built once into libverifsupport.a) so harness TUs need not parse rapidcheck.
 #include <rapidcheck.h>
 
@@ -24,7 +26,7 @@ struct RcSrc : Src {
 
 bool rc_engine_run(const std::function<void(Src&, int)>& body, uint64_t seed, long cases, int max_size) {
   std::string params = "seed=" + std::to_string(seed) + " max_success=" + std::to_string(cases) +
-                       " max_size=" + std::to_string(max_size) + " noshrink=0";
+                       " max_size=" + std::to_string(max_size) + " noshrink=1";
   setenv("RC_PARAMS", params.c_str(), 1);
   return rc::check("verif property", [&]() {
     int size = *rc::gen::withSize([](int s) { return rc::gen::just(s); });
